@@ -1,5 +1,5 @@
 """Property id -> function that runs its engine(s) and fills a common.Run."""
-import os, json
+import shutil, os, json
 import common
 from common import Infra
 
@@ -98,6 +98,20 @@ def build_batch(run, seed, p):
         d, traits, desc = _batch.make_batch(seed * 16 + p["idx"], p["n"], name, exclude=exclude, lite=lite)
         ok, exe, errs, tail = _diag.build(d, PB_TARGET, release=p["release"], timeout=3000)
         if ok:
+            fc = {}
+            for (m, t) in traits:
+                if m in exclude:
+                    continue
+                for f in t.features():
+                    fc["trait:" + f] = fc.get("trait:" + f, 0) + 1
+            for gm, g in desc.items():
+                if isinstance(g, dict) and "group" in g and gm not in exclude:
+                    fc["groups"] = fc.get("groups", 0) + 1
+                    if any("=" in o for o in g.get("optional", [])):
+                        fc["group:aliased-member"] = fc.get("group:aliased-member", 0) + 1
+                    if any("<" in o for o in g.get("optional", []) + g.get("mandatory", [])):
+                        fc["group:generic-member"] = fc.get("group:generic-member", 0) + 1
+            run._last_features = fc
             return exe, desc, rejected, d
         bad = set()
         for f, msgs in errs.items():
@@ -116,6 +130,66 @@ def build_batch(run, seed, p):
     raise Infra("program batch still does not build after dropping rejected modules")
 
 
+def _single_module(run, seed, p, module, drop, tag):
+    """build the one-module (possibly reduced) crate of a batch; returns (exe | None, full trait, reduced trait)"""
+    name = f"pb-shrink-{tag}"
+    for lite in (False, True):
+        d, full, red = _batch.make_single(seed * 16 + p["idx"], p["n"], name, module, drop=drop, lite=lite)
+        ok, exe, errs, tail = _diag.build(d, PB_TARGET, release=False, timeout=1200)
+        if ok:
+            return exe, full, red
+    return None, full, red
+
+
+def shrink_program(run, seed, p, res):
+    """Structural shrinking: for a violation inside a generated trait module, delete methods of
+    that trait one at a time (operation selectors keep their meaning) as long as the same
+    violation key reproduces on the recorded case; the replay file then names the reduced program."""
+    import emit as _emit
+    for v in res.get("violations", []):
+        sub = v.get("sub", "")
+        mod = sub.split(":")[0]
+        if not (mod[:1] == "m" and mod[1:].isdigit()) or v.get("key") == "crash" or not v.get("case"):
+            continue
+        tmp = os.path.join(common.WORK, f"shrink-{run.prop}-{os.getpid()}.json")
+        json.dump({"property": run.prop, "sub": sub, "case": v["case"]}, open(tmp, "w"))
+
+        def reproduces(drop):
+            exe, full, red = _single_module(run, seed, p, mod, drop, str(os.getpid()))
+            if exe is None:
+                return False, full, red
+            out = tmp + ".out"
+            if os.path.exists(out):
+                os.remove(out)
+            cmd = run._harness_cmd(exe, out, ["--cases", "1"], replay=tmp)
+            try:
+                common.sh(cmd, timeout=300)
+            except Infra:
+                return False, full, red
+            if not os.path.exists(out):
+                return False, full, red
+            r = json.load(open(out)); os.remove(out)
+            return any(x.get("key") == v.get("key") for x in r.get("violations", [])), full, red
+
+        try:
+            ok, full, red = reproduces([])
+            if not ok:
+                continue   # does not reproduce in isolation: keep the full batch as the replay unit
+            drop = []
+            for m in full.methods:
+                ok2, _, red2 = reproduces(drop + [m.idx])
+                if ok2:
+                    drop.append(m.idx)
+                    red = red2
+            res.setdefault("_shrunk", {})[sub + "|" + v.get("key", "")] = {"only": mod, "drop": drop}
+            v["program"] = _emit.trait_def(red)
+            v["what"] = v.get("what", "") + f" [program reduced to {len(red.methods)} of {len(full.methods)} methods: " + " ".join(_emit.trait_def(red).split()) + "]"
+        finally:
+            if os.path.exists(tmp):
+                os.remove(tmp)
+            shutil.rmtree(os.path.join(common.WORK, f"pb-shrink-{os.getpid()}"), ignore_errors=True)
+
+
 def progbatch(run, extra_args=None):
     seed = run.seed
     params = pb_params(run.tier, seed)
@@ -126,19 +200,40 @@ def progbatch(run, extra_args=None):
             run.tier_for_batch = ep.get("tier", run.tier)
             seed = ep.get("seed", seed)
             params = [q for q in pb_params(ep.get("tier", run.tier), seed) if q["idx"] == ep.get("idx", 0)]
+            sh_ = (ep.get("shrunk") or {}).get(body.get("sub", "") + "|" + body.get("key", ""))
+            if sh_ and params:
+                # the reduced one-module program named by the replay file
+                exe, full, red = _single_module(run, seed, params[0], sh_["only"], sh_["drop"], "replay-" + str(os.getpid()))
+                if exe is None:
+                    raise Infra("the reduced program of the replay file does not build against the current tree")
+                res = run.run_harness(exe, args=["--cases", "1"], timeout=600, label="reduced-program")
+                res["_params"] = ep
+                shutil.rmtree(os.path.join(common.WORK, "pb-shrink-replay-" + str(os.getpid())), ignore_errors=True)
+                return
     total_rejected = {}
+    feat = {}
     for p in params:
         exe, desc, rejected, d = build_batch(run, seed, p)
+        for f, n in (getattr(run, "_last_features", None) or {}).items():
+            feat[f] = feat.get(f, 0) + n
         for m, msgs in rejected.items():
             total_rejected[f"batch{p['idx']}/{m}"] = {"definition": desc.get(m), "rustc": msgs}
         args = ["--cases", str(p["cases"])] + (extra_args or [])
         res = run.run_harness(exe, args=args, timeout=3600, label=f"batch{p['idx']}")
         res["_params"] = {"tier": run.tier if not run.replay else getattr(run, "tier_for_batch", run.tier), "seed": seed, "idx": p["idx"]}
+        if not run.replay and res.get("violations"):
+            try:
+                shrink_program(run, seed, p, res)
+            except Exception as e:   # shrinking is a convenience: never let it mask the finding
+                res.setdefault("notes", []).append(f"structural shrinking failed: {e}")
+            if res.get("_shrunk"):
+                res["_params"]["shrunk"] = res["_shrunk"]
         # a few generated definitions as samples
         if not run.replay:
             run.extra_cov.setdefault("sample_definitions", [])
             for m in list(desc)[:2]:
                 run.extra_cov["sample_definitions"].append(desc[m])
+    run.extra_cov["grammar_features"] = dict(sorted(feat.items()))
     run.extra_cov["compile_rejected"] = len(total_rejected)
     if total_rejected:
         run.extra_cov["compile_rejected_detail"] = dict(list(total_rejected.items())[:5])
